@@ -402,11 +402,19 @@ OWNER = {"ser.guard": "C01", "ser.bytes": "C01", "ser.size": "C01", "ser.rc": "C
 
 
 def universe(ctx, n_rand, level, depth=2, big=True):
+    """enumerated small universe + seeded random composites.  TLC's cost per record grows faster than linearly with the size of
+    the type, so most random types are kept below ~50 bytes and only every 8th may be large (long arrays, deep nesting)."""
     types = dsdl.small_universe(level)
     rng = __import__("random").Random(ctx.seed * 7919 + 17)
-    for i in range(n_rand):
-        types.append(dsdl.rand_composite(rng, rng.choice([1, depth, depth]), big=big and i % 9 == 0))
-    # PyDSDL refuses some shapes (e.g. an empty union is impossible by construction); keep only composites
+    i = 0
+    while i < n_rand:
+        large = big and i % 8 == 7
+        t = dsdl.rand_composite(rng, rng.choice([1, depth, depth]), big=large and i % 16 == 15)
+        limit = (4000 if level == 1 else 24000) if large else 400
+        if dsdl.max_bits_body(t) > limit:
+            continue
+        types.append(t)
+        i += 1
     return types
 
 
